@@ -143,6 +143,11 @@ def nontrivial(cfg, op, o):
 
 
 # ------------------------------------------------------------------ exploration
+def _hashable(x):
+    """class keys may contain an expected result (a list) when a query that should succeed is rejected"""
+    return tuple(_hashable(i) for i in x) if isinstance(x, (list, tuple)) else x
+
+
 def budgets(tier):
     return (48, 40) if tier == "quick" else (1600, 60)
 
@@ -194,7 +199,7 @@ def explore(tier, seed, model_ok=True, focus=False):
                 ex.count("observation-recorded:" + o["ring_class"])
             k = nontrivial(cfg, op, o)
             if k is not None:
-                ex.nontrivial.add(k)
+                ex.nontrivial.add(_hashable(k))
             for key, what in monitor(cfg, op, o):
                 idx = [j for j, t in enumerate(trace) if t[1] is o][0]
                 ex.failures.append(dict(key=key, what=what, replay=dict(cfg=cfg, ops=ops_all[:idx + 1], seed=sd,
